@@ -59,7 +59,7 @@ func VerifC18_Help() {
 	kind := vInt("kind", 0, 11)
 	required := vInt("required", 0, 2) // 0 no, 1 yes, 2 yes with custom message
 	envBound := vBool("env")
-	nAlias := vInt("aliases", 0, 2)
+	nAlias := vInt("aliases", 0, 3)
 	descKind := vInt("desc", 0, 2) // 0 absent, 1 symbolic single line, 2 concrete multi-line
 	atCommand := vBool("atcommand") // help of a command that inherits the option
 	nCmds := vInt("commands", 0, 2)
@@ -92,6 +92,10 @@ func VerifC18_Help() {
 	case 2:
 		fns = append(fns, opt.Alias("t", "tgt"))
 		names = "--target|-t|--tgt"
+	case 3:
+		// aliases given through two separate modifiers
+		fns = append(fns, opt.Alias("t"), opt.Alias("tgt", "T"))
+		names = "--target|-t|--tgt|-T"
 	}
 	switch descKind {
 	case 1:
@@ -150,7 +154,7 @@ func VerifC18_Help() {
 			entries++
 			entryAt = i
 		}
-		if strings.HasPrefix(l, "    -t") || strings.HasPrefix(l, "    --tgt") {
+		if strings.HasPrefix(l, "    -t") || strings.HasPrefix(l, "    --tgt") || strings.HasPrefix(l, "    -T") {
 			aliasEntries++
 		}
 	}
